@@ -244,6 +244,10 @@ func run(c *lib.Ctx) {
 		c.Case(lib.Fingerprint([]any{in.Seed, j.race}), nontrivial, map[string]any{"batch": j.idx, "race": j.race, "scenarios": in.N, "injections": map[string]int64{
 			"stream": cn["inj_stream"], "pubsub": cn["inj_pubsub"], "handler": cn["inj_handler"], "download_reply": cn["inj_download_reply"], "peerinfo_reply": cn["inj_peerinfo_reply"], "version_reply": cn["inj_version_reply"]},
 			"probes_answered": answered, "wall_ms": res.WallMs})
+		if d := os.Getenv("VERIF_C33_KEEPLOGS"); d != "" {
+			os.MkdirAll(d, 0o755)
+			os.Rename(in.LogPath, filepath.Join(d, filepath.Base(in.LogPath)))
+		}
 		os.Remove(in.LogPath)
 	})
 	c.Extra("race_reports_by_frame_pair", raceKeys)
